@@ -129,3 +129,17 @@ vt_proof! { unwind = 4; fn c23_leaf_accessors_corrupt_cell() {
     let m = core::mem::ManuallyDrop::new(LeafNodeMut::from_page(&mut page));
     if let Ok(l) = &*m { let _ = l.free_space(); }
 }}
+
+// @vt prop=C23 tier=quick bound="WAL frame header: undo-frame packing for every table id < 2^24 and every 32-bit txn id; frame type / file id accessors on every 64-bit file_id field" outside="reading frames from a segment file (file I/O, CRC)" timeout=1800
+vt_proof! { unwind = 2; fn c23_wal_frame_header_packing() {
+    use turdb::storage::WalFrameType;
+    let (t, x): (u32, u32) = (kani::any(), kani::any());
+    kani::assume(t < (1 << 24));
+    let h = WalFrameHeader::new_undo_frame(kani::any(), kani::any(), kani::any(), kani::any(), kani::any(), t, x);
+    assert!(h.frame_type() == WalFrameType::Undo, "role=undo_frame_is_recognised");
+    assert!(h.undo_table_id() == t && h.undo_txn_id() == x, "role=undo_frame_ids_roundtrip");
+    let any = WalFrameHeader::new_with_file_id(0, 0, 0, 0, 0, kani::any());
+    let _ = (any.frame_type(), any.actual_file_id(), any.undo_table_id(), any.undo_txn_id());
+    assert!(any.actual_file_id() < (1u64 << 56), "role=file_id_excludes_type_byte");
+    kani::cover!(t == (1 << 24) - 1 && x == u32::MAX, "w:extreme_ids");
+}}
